@@ -854,6 +854,17 @@ class Engine:
                     return Int(z3.BitVecVal(len(w.attrs["lit"]), 64), "usize")
                 if isinstance(w, Opaque) and w.ty == "scratchslice":
                     return Int(z3.BitVec("scratchlen_%d" % next(self.fresh), 64), "usize")
+                if isinstance(w, Blob) or (isinstance(w, Ref) and w.addr[0] == "B"):
+                    # a slice inside an abstract heap value: any length (one fresh value per query site)
+                    return Int(z3.BitVec("bloblen_%d" % next(self.fresh), 64), "usize")
+                if isinstance(w, Ref) and w.addr[0] in ("H", "L"):
+                    # an array unsized to a slice: the length is the number of elements of the aggregate
+                    try:
+                        tgt = self.load(st, w.addr)
+                    except Unsupported:
+                        tgt = None
+                    if isinstance(tgt, Agg) and tgt.kind == "array":
+                        return Int(z3.BitVecVal(len(tgt.fields), 64), "usize")
                 if isinstance(w, Ref) and len(w.addr) == 2 and w.addr[0] == "S" and self.statics.get(w.addr[1], {}).get("bytes") is not None:
                     # a byte-string constant behind a `&[u8]` / `&str`: its length is the size of the allocation
                     op = rv[2]
@@ -1183,7 +1194,18 @@ class Engine:
         elif ty == "f64":
             v = self.sym_f64("unmodelled")
         else:
-            return None
+            # an object built by library code outside the crates (iterators, adapters, deserializer helpers ...): an abstract value
+            # with arbitrary content.  Not for calls that take closures (their effects would be lost) or raw pointers.
+            for a in args:
+                if a[0] in ("copy", "move") and a[1][0] == "local":
+                    aty = (fr.fn.local_ty.get(a[1][1]) or "")
+                    if "{closure" in aty or "*const" in aty or "fn(" in aty:
+                        return None
+                elif a[0] == "const" and ("{closure" in str(a[1]) or "ZeroSized" in str(a[1])):
+                    return None
+            if not ty or ty == "()" or ty == "!":
+                return None
+            v = Ref(("V", Blob("unmodelled:" + callee.split("::<")[0]))) if ty.startswith("&") else Blob("unmodelled:" + callee.split("::<")[0])
         st.events.append(("unmodelled_call", callee))
         self.unmodelled.add(callee)
         return v
